@@ -25,7 +25,7 @@ ID = "C11"
 LEVEL = "proof"
 PROPS_FILE = "C11.v"
 RUN_MODULE = "RunC11"
-TRANSLATOR_UNITS = ["pysim"]
+TRANSLATOR_UNITS = ["pysim", "mem"]
 RULE = ("exhaustive: depth 2, width 1, one write + one read port (comb / sync / sync transparent), every input word "
         "(waddr, wdata, wen, raddr, ren) x (same) of two clock edges (thorough: also width 2 with two enable bits, transparent port); every single edge for depth in {0,1,2,3} x width "
         "{1,2} (quick: width 2 only with the transparent port) x granularity {None,1} x the three read-port kinds from a non-zero initial memory; "
